@@ -49,3 +49,12 @@ Print Assumptions not_under_original.
 Print Assumptions unblind_blind.
 Print Assumptions blind_commutes.
 Print Assumptions blinded_key_changes_iff.
+
+(** invertibility at the arithmetic the harness EXECUTES (Model/Derive.v [mulm], [invm]; for Ed25519 the modulus is
+    [order_ed25519] = L), for every prime group order q *)
+From Coq Require Import ZArith NArith Znumtheory.
+From PatVerif Require Import Model.Derive Proofs.ZqP.
+Theorem unblind_blind_executed : forall q P r, prime (Z.of_N q) -> (r mod q <> 0)%N ->
+  mulm q (invm q r) (mulm q r P) = (P mod q)%N.
+Proof. exact exec_unblind_blind. Qed.
+Print Assumptions unblind_blind_executed.
